@@ -49,9 +49,9 @@ type Enum struct {
 type Field struct {
 	Name   string `json:"name"`
 	Number int32  `json:"number"`
-	Card   string `json:"card,omitempty"` // "", repeated, map
-	Kind   string `json:"kind"`           // scalar name | enum | message | timestamp | duration
-	Type   string `json:"type,omitempty"` // enum / message name (same file)
+	Card   string `json:"card,omitempty"`    // "", repeated, map
+	Kind   string `json:"kind"`              // scalar name | enum | message | timestamp | duration
+	Type   string `json:"type,omitempty"`    // enum / message name (same file)
 	MapKey string `json:"map_key,omitempty"` // default "string"; other values only for C18 probes
 	Oneof  string `json:"oneof,omitempty"`
 
